@@ -457,7 +457,9 @@ pub fn small_session_strategy(o: SmallOpts) -> BoxedStrategy<SessSpec> {
                 let size = if o.allow_empty && empty == 0 { 0 } else { (t * e as u32) as usize - short as usize };
                 let al = if matches!(scheme, Scheme::RaptorQ | Scheme::Raptor) { 4 } else { 1 };
                 let mut ob = ObjSpec::simple(size, seed);
-                ob.oti = Some(OtiSpec { scheme, e, b, parity, inband_fti: inband, al, nsub: 1 });
+                // RaptorQ sub-blocking (N > 1): the symbol of e/al alignment units is split into N sub-symbols
+                let nsub = if scheme == Scheme::RaptorQ && e >= 8 { 1 + (seed % (e as u64 / 4).min(3)) as u16 } else { 1 };
+                ob.oti = Some(OtiSpec { scheme, e, b, parity, inband_fti: inband, al, nsub });
                 ob.max_transfer_count = mtc;
                 ob.cenc = cenc;
                 ob.inband_cenc = inband_cenc;
